@@ -1637,6 +1637,18 @@ func (s *Store) Request(ctx context.Context, eqr *proto.ExecuteQueryRequest) ([]
 	nRW, nRO := s.RORWCount(eqr)
 	isLeader := s.raft.State() == raft.Leader
 
+	// As for Query(), AUTO means WEAK on voting nodes, and NONE on non-voting nodes.
+	if eqr.Level == proto.ConsistencyLevel_AUTO {
+		eqr.Level = proto.ConsistencyLevel_WEAK
+		isVoter, err := s.IsVoter()
+		if err != nil {
+			return nil, 0, 0, err
+		}
+		if !isVoter {
+			eqr.Level = proto.ConsistencyLevel_NONE
+		}
+	}
+
 	// See the Query() code for a full explanation of this.
 	readTerm := s.raft.CurrentTerm()
 	if eqr.Level == proto.ConsistencyLevel_LINEARIZABLE {
